@@ -45,7 +45,7 @@ LO, HI = 1e-6, 1 - 1e-6
 
 
 def n_cases(tier):
-    return 600 if tier == "quick" else 9000
+    return 2400 if tier == "quick" else 9000
 
 
 # --------------------------------------------------------------------------------------
